@@ -59,9 +59,13 @@ impl FeoxStore {
 
         let mut guard = epoch::pin();
         let mut entries_since_repin = 0;
+        #[cfg(feoxdb_verif)]
+        crate::verif::sched::point_key("c14_scan_begin", start_key);
         let mut cursor = self.tree.lower_bound(Bound::Included(start_key));
 
         while let Some(entry) = cursor {
+            #[cfg(feoxdb_verif)]
+            crate::verif::sched::point_key("c14_scan_at", entry.key());
             if results.len() >= limit || entry.key().as_slice() > end_key {
                 break;
             }
@@ -78,6 +82,8 @@ impl FeoxStore {
             let value = match value {
                 Ok(value) => value.to_vec(),
                 Err(FeoxError::StaleExtent) | Err(FeoxError::KeyNotFound) => {
+                    #[cfg(feoxdb_verif)]
+                    crate::verif::sched::point_key("c14_scan_loaded", entry.key());
                     cursor = entry.next();
                     continue;
                 }
@@ -85,6 +91,8 @@ impl FeoxStore {
             };
 
             results.push((entry.key().clone(), value));
+            #[cfg(feoxdb_verif)]
+            crate::verif::sched::point_key("c14_scan_loaded", entry.key());
             cursor = entry.next();
         }
 
